@@ -294,4 +294,68 @@ class WordTemplate(Part):
             self.one(ctx, TV.console(), Text, chr(spec["cp"]))
 
 
-PARTS = [Wrap(), WordTemplate()]
+class FitTemplate(Part):
+    name = "fit-template"
+    custom = True
+    exhaustive = True
+    CORES = ["resume", "ab", "\u6f22\u5b57x", "e"]
+    ZERO = ["\u0301", "\u0301\u0300", "\u200d", "\ufe0f", "\u200b", ""]
+    SPACES = [" ", "\u2028", "\u2029", "\x85", "\x1c", "\x1f", "\u3000", "\xa0", "\t"]
+    rule = ("a word that ends in zero-width characters (combining marks, ZWJ, VS16, ZWSP) and exactly fills the width, followed by every run of 1-3 white-space characters over "
+            "{space, LS, PS, NEL, FS, US, ideographic space, NBSP, tab} and another word; wrapped with fold overflow, justify default / left / full, through Text.wrap: the characters that are "
+            "not white space all survive, in order, and the first line is the first word whole; non-trivial = the run contains a zero-width white-space character")
+    budget = {"quick": (16, 1), "thorough": (16, 1)}
+
+    def cases(self):
+        import itertools
+
+        runs = [r for n in (1, 2, 3) for r in itertools.product(range(len(self.SPACES)), repeat=n)]
+        for ci in range(len(self.CORES)):
+            for zi in range(len(self.ZERO)):
+                for r in runs:
+                    for j in (None, "left", "full"):
+                        yield {"core": ci, "zero": zi, "run": list(r), "justify": j}
+
+    def run_shard(self, tier, shard, nshards, seed, stats, deadline, known):
+        from ..core import Ctx
+
+        ctx = Ctx()
+        n = nt = 0
+        for i, case in enumerate(self.cases()):
+            if i % nshards != shard:
+                continue
+            before = len(ctx.violations)
+            self.one(ctx, case)
+            n += 1
+            if any(OC.width(self.SPACES[k]) == 0 for k in case["run"]):
+                nt += 1
+            for v in ctx.violations[before:]:
+                if not known.match(v.sig):
+                    stats.found.setdefault(v.sig, {"spec": case, "clause": v.clause, "detail": v.detail, "size": 1, "part": self.name})
+        stats.evaluations += n
+        stats.nontrivial_count_distinct += nt
+        stats.done += 1
+        stats.samples.append((1, {"shard": shard, "example": {"core": 0, "zero": 0, "run": [0, 1], "justify": None}}, "range"))
+
+    def one(self, ctx, case):
+        from rich.text import Text
+
+        word = self.CORES[case["core"]] + self.ZERO[case["zero"]]
+        run = "".join(self.SPACES[k] for k in case["run"])
+        s = word + run + "attached"
+        width = OC.width(word)
+        lines = [l.plain for l in sut(Text(s).wrap, TV.console(), width, justify=case["justify"], tab_size=4)]
+        kept = "".join(c for l in lines for c in l if not c.isspace())
+        want = "".join(c for c in s if not c.isspace())
+        if kept != want:
+            ctx.violation("characters", "C02/chars/fit-template", "Text(%r) wrapped at %d cells (the width of its first word, justify=%r) gives %r: the characters that are not white space are %r, not %r" % (
+                s, width, case["justify"], lines, kept, want))
+        elif not lines or lines[0].strip() != word.strip():
+            ctx.violation("break", "C02/break/fit-template", "Text(%r) wrapped at %d cells (the width of its first word, justify=%r) gives %r: the first word fits the width and is not kept whole on the first line" % (
+                s, width, case["justify"], lines))
+
+    def replay(self, spec, ctx):
+        self.one(ctx, spec)
+
+
+PARTS = [Wrap(), WordTemplate(), FitTemplate()]
